@@ -36,12 +36,16 @@ PLAN = {
         "n_random": 70, "max_nodes": 8, "n_corrupt": 24, "procs": 8, "tlc_workers": 8,
     },
     "thorough": {
-        "design": [("PipelineMC_thorough2d", 1500, "2-D, 3 body nodes, widths {2,3}: PIT (fold on/off) -> MPS per layer -> MATCH / MAUPITI"),
-                   ("PipelineMC_thorough1d", 1200, "1-D, kernels {2,3,5}: two PIT rounds with every time-mask pattern -> MPS per layer"),
-                   ("PipelineMC_thoroughpc", 300, "2-D: PIT -> MPS per channel incl. 0 bit"),
-                   ("PipelineMC_thoroughcat", 400, "PIT only, two rounds, with channel concatenations")],
+        "design": [("PipelineMC_quick2d", 0, "2-D: PIT (fold on/off) -> MPS per layer -> MATCH / MAUPITI; EVERY completed pipeline is executed"),
+                   ("PipelineMC_quickpc", 0, "2-D: PIT -> MPS per channel incl. 0 bit; EVERY completed pipeline is executed"),
+                   ("PipelineMC_thorough2d", 800, "2-D, 3 body nodes, width 3: PIT -> MPS per layer -> MATCH / MAUPITI"),
+                   ("PipelineMC_thorough2dw", 800, "2-D, 2 body nodes, widths {2,3}, bias on/off, fold on/off, 3 tuple configurations -> MATCH / MAUPITI"),
+                   ("PipelineMC_thorough1d", 800, "1-D, kernels {3,5}, BatchNorm, pooling: every (cut, level) time mask -> MPS per layer"),
+                   ("PipelineMC_thorough1d2", 600, "1-D, kernels {2,3}, concatenation: two PIT rounds with every time mask -> MPS per layer"),
+                   ("PipelineMC_thoroughpc", 300, "2-D, 3 body nodes: PIT -> MPS per channel incl. 0 bit"),
+                   ("PipelineMC_thoroughcat", 400, "2-D PIT only, two rounds, channel concatenations, widths {2,3}")],
         "sanity": ["PipelineMC_asis"],
-        "n_random": 1500, "max_nodes": 10, "n_corrupt": 120, "procs": 8, "tlc_workers": 8,
+        "n_random": 1200, "max_nodes": 10, "n_corrupt": 120, "procs": 8, "tlc_workers": 8,
     },
 }
 
@@ -141,7 +145,10 @@ def run(tier: str, seed: int, replay=None) -> int:
     vs = R.validate("PipelineTrace", "PipelineTrace", traces, scs, nontrivial=lambda s: s["_nt"], key=_key,
                     label="completed pipelines of PipelineMC + seeded random pipelines, one multi-event trace each", workers=workers)
     # ---- 5. sensitivity of the trace specification: corrupted copies of accepted traces must be rejected
-    ok_idx = [i for i, v in enumerate(vs) if v == "ok" and len(traces[i]["ev"]) >= 3 and traces[i]["ev"][2]["k"] == "pitx" and traces[i]["ev"][2]["ok"]]
+    # (pipelines replayed from the model checker: every stage they reach is inside the domain of that stage by construction,
+    #  so every event is judged; a random pipeline may continue for real where the specification stops claiming)
+    ok_idx = [i for i, v in enumerate(vs) if v == "ok" and scs[i]["src"].startswith("PipelineMC_") and len(traces[i]["ev"]) >= 3
+              and traces[i]["ev"][2]["k"] == "pitx" and traces[i]["ev"][2]["ok"]]
     crng = random.Random(seed + 77)
     pick = sorted(crng.sample(ok_idx, min(len(ok_idx), plan["n_corrupt"])))
     if pick:
